@@ -15,6 +15,8 @@ Specification side of C08, written from the standards and not from parse.c:
       * a union puts every member at offset 0; its size is the largest member extent rounded up to its alignment.
     GNU attributes as implemented by gcc 12 (the psABI does not define them):
       * `aligned(n)` on the aggregate: alignment is at least n (with `packed`: exactly the max of n and explicit member alignments);
+        `aligned(0)` is ignored (with a warning); n must otherwise be a positive power of two ≤ 2^28;
+      * a bit-field must have an integer type (`_Bool`, the char/short/int/long family, an enumerated type);
       * `packed`: members that are not bit-fields get alignment 1 unless they carry an explicit `_Alignas`; bit-fields of
         non-zero width are allocated at the next free bit with no containment rule; zero-width bit-fields still round up
         to the unit; only explicit member `_Alignas` contributes to the aggregate's alignment;
@@ -22,6 +24,9 @@ Specification side of C08, written from the standards and not from parse.c:
 
 All arithmetic in `Nat`; `roundUp` is *defined* by case distinction on the remainder (not by chibicc's align_to formula)
 and proved to be the least multiple ≥ n in Lemmas/LayoutLemmas.lean.
+
+(d) which of the declarations over these constructs are constraint violations (`specAccepted`): an `aligned(n)` other than
+    0 / a power of two ≤ 2^28, a bit-field whose declared type is not an integer type.
 
 Core Lean only; executable (validated against gcc 12 through `drv_c08 speclayout`).
 -/
@@ -159,6 +164,13 @@ def specUnion (packed : Bool) (aligned : Option Nat) (ms : List SMem) : SLayout 
 
 open ChibiVerif.Layout (Ty Members MemDecl Aligns)
 
+/-- `__attribute__((aligned(n)))` on an aggregate as gcc 12 implements it: `aligned(0)` requests nothing (gcc warns
+    "requested alignment '0' is not a positive power of 2" and ignores the attribute); other values (positive powers of two
+    up to 2^28 — everything else is an error in gcc) request alignment at least n -/
+def specAligned : Option Int → Option Nat
+  | none => none
+  | some n => if n = 0 then none else some n.toNat
+
 mutual
   def specSizeAlign : Ty → Nat × Nat
     | .prim t => psabiScalar t
@@ -166,8 +178,8 @@ mutual
     | .ptr => psabiPointer
     | .arr e n => let (s, a) := specSizeAlign e; (s * n.toNat, a)
     | .flex e => let (_, a) := specSizeAlign e; (0, a)
-    | .struct p al ms => let l := specStruct p (al.map Int.toNat) (specMembers ms); (l.size, l.align)
-    | .union p al ms => let l := specUnion p (al.map Int.toNat) (specMembers ms); (l.size, l.align)
+    | .struct p al ms => let l := specStruct p (specAligned al) (specMembers ms); (l.size, l.align)
+    | .union p al ms => let l := specUnion p (specAligned al) (specMembers ms); (l.size, l.align)
   /-- C11 6.7.5p6: `_Alignas(type-name)` is `_Alignas(_Alignof(type-name))`, `_Alignas(0)` has no effect, and of several
       specifiers the strictest one takes effect: the maximum (0 = no specifier) -/
   def specAligns : Aligns → Nat
@@ -188,8 +200,47 @@ def specVarAlign (as : Aligns) (ty : Ty) : Nat :=
 
 /-- size, alignment and member placements of a whole type -/
 def specTy : Ty → SLayout
-  | .struct p al ms => specStruct p (al.map Int.toNat) (specMembers ms)
-  | .union p al ms => specUnion p (al.map Int.toNat) (specMembers ms)
+  | .struct p al ms => specStruct p (specAligned al) (specMembers ms)
+  | .union p al ms => specUnion p (specAligned al) (specMembers ms)
   | t => { size := (specSizeAlign t).1, align := (specSizeAlign t).2, placed := [] }
+
+/-! ### which declarations are accepted (gcc 12's constraints on the constructs of this property) -/
+
+/-- a requested alignment must be a positive power of two no larger than 2^28 (gcc: "requested alignment 'n' is not a
+    positive power of 2" / "exceeds maximum 268435456") -/
+def isPow2le28 (n : Int) : Bool := (List.range 29).any fun k => n == (2 : Int) ^ k
+
+/-- `aligned(n)` requests gcc accepts: none, 0 (warning only, no effect), 2^0 … 2^28 -/
+def alignedOk : Option Int → Bool
+  | none => true
+  | some n => n == 0 || isPow2le28 n
+
+/-- declared types a bit-field may have (C11 6.7.2.1p5 + what gcc accepts: every integer type and enumerated types;
+    "bit-field 'x' has invalid type" otherwise) -/
+def isBitfieldBase : Ty → Bool
+  | .prim t => t == .bool || t == .char || t == .uchar || t == .short || t == .ushort || t == .int || t == .uint ||
+               t == .long || t == .ulong
+  | .enum => true
+  | _ => false
+
+mutual
+  /-- the declaration violates neither constraint, at any depth (operands of `_Alignas(type-name)` included) -/
+  def specAccepted : Ty → Bool
+    | .prim _ => true
+    | .enum => true
+    | .ptr => true
+    | .arr e _ => specAccepted e
+    | .flex e => specAccepted e
+    | .struct _ al ms => alignedOk al && specAcceptedMs ms
+    | .union _ al ms => alignedOk al && specAcceptedMs ms
+  def specAcceptedAs : Aligns → Bool
+    | .nil => true
+    | .const _ rest => specAcceptedAs rest
+    | .type t rest => specAccepted t && specAcceptedAs rest
+  def specAcceptedMs : Members → Bool
+    | .nil => true
+    | .cons d as ty rest =>
+      specAcceptedAs as && specAccepted ty && (d.bitWidth.isNone || isBitfieldBase ty) && specAcceptedMs rest
+end
 
 end ChibiVerif.Spec.Layout
